@@ -231,6 +231,12 @@ func c04Structured() []string {
 			out = append(out, l+"@"+d, "@r.test:"+l+"@"+d)
 		}
 	}
+	// addresses at the length limits (local part 64, domain about 250, labels 63): the name is long
+	// in every naming mode, and longer than the line limits some protocols recommend
+	lab := strings.Repeat("d", 60)
+	longDom := lab + "." + lab + "." + lab + "." + lab + ".test"
+	long64 := strings.Repeat("l", 60) + "+tag"
+	out = append(out, long64+"@d.test", "a@"+longDom, long64+"@"+longDom, strings.Repeat("L", 64)+"@"+strings.ToUpper(longDom))
 	return out
 }
 
